@@ -487,7 +487,9 @@ class HistogramND(HistogramBase):
         # TODO: inplace
         new_one = self.copy()
         axis_id = self._get_axis(axis)
-        new_one._frequencies = np.cumsum(new_one.frequencies, axis_id)
+        frequencies = np.cumsum(new_one.frequencies, axis_id)
+        new_one._coerce_dtype(frequencies.dtype)  # narrow integers are accumulated in a wider type
+        new_one._frequencies = frequencies
         return new_one
 
     def projection(self, *axes: Axis, **kwargs) -> HistogramBase:
